@@ -4,6 +4,7 @@ CONSTANTS FlawShallowListFreeze = TRUE
  FlawAppendSharesCapacity = FALSE
  FlawSortedAliasesOrdered = FALSE
  OnlyTargets = {}
+ DeepTargets = {}
  MaxMut = 2
  DeepVias = {"direct", "alias"}
  LastVias = {}
